@@ -596,10 +596,15 @@ def arith_case(draw, tier):
             # timeslices on which numerator and denominator vanish exactly: 0 / 0 = NaN must become undefined
             both = [t for t in range(a['T']) if t not in a['none'] and t not in spec['p']['none']]
             zs = draw(st.lists(st.sampled_from(both), min_size=1, max_size=max(1, len(both) // 2), unique=True)) if both else []
+            # (matrix-valued: now and then only some matrix elements are 0 / 0 - the timeslice is undefined all the same)
+            per_a = a['N'] * a['N']
+            qsel = None
+            if per_a > 1 and spec['p']['N'] == a['N'] and draw(st.booleans()):
+                qsel = sorted(draw(st.lists(st.integers(0, per_a - 1), min_size=1, max_size=per_a - 1, unique=True)))
             for cs in (a, spec['p']):
                 per = cs['N'] * cs['N']
                 for t in zs:
-                    for q in range(per):
+                    for q in (qsel if (qsel is not None and per == per_a) else range(per)):
                         cs['means'][(t - cs['pad'][0]) * per + q] = 0.0
             spec['zero_pairs'] = sorted(zs)
     elif ptype == 'zero':
